@@ -168,6 +168,8 @@ type Options struct {
 	Keys     *KeyStore
 	// WrapSource lets a check interpose on the configuration source.
 	NoServe bool // only build the loader (C13 lookups)
+	// ExtraWriters: see tap.Tap.ExtraWriters
+	ExtraWriters int
 	// ShareContext: the loader and Serve run under ONE context, as cmds/server/main.go wires them
 	// (cancelling the server then also cancels whatever the loader does with its context)
 	ShareContext bool
@@ -267,6 +269,7 @@ func Start(cfg config.ServerConfig, opt Options) (*Ref, error) {
 		n = simnet.New()
 	}
 	tp := tap.New(n)
+	tp.ExtraWriters = opt.ExtraWriters
 	tp.Recover = opt.Recover
 	lg := tap.NewLogger(opt.KeepLogs)
 	keys := opt.Keys
